@@ -375,6 +375,15 @@ class TransportRefsContainer(RefsContainer):
             transport = self.worktree_transport
         transport.put_bytes(urlutils.quote_from_bytes(name), SYMREF + other + b"\n")
 
+    def _invalidate_packed_refs(self):
+        """Forget the cached contents of packed-refs.
+
+        Another container or process may have rewritten packed-refs since it
+        was read; a conditional update has to look at the refs as they are now.
+        """
+        self._packed_refs = None
+        self._peeled_refs = None
+
     def _read_current_ref(self, name):
         """Return the value to compare an expected old value with.
 
@@ -400,6 +409,7 @@ class TransportRefsContainer(RefsContainer):
         :return: True if the set was successful, False otherwise.
         """
         self._check_refname(name)
+        self._invalidate_packed_refs()
         try:
             realnames, _ = self.follow(name)
             realname = realnames[-1]
@@ -425,6 +435,7 @@ class TransportRefsContainer(RefsContainer):
         :param ref: The new sha the refname will refer to.
         :return: True if the add was successful, False otherwise.
         """
+        self._invalidate_packed_refs()
         try:
             realnames, contents = self.follow(name)
             if contents is not None:
@@ -453,6 +464,7 @@ class TransportRefsContainer(RefsContainer):
         :return: True if the delete was successful, False otherwise.
         """
         self._check_refname(name)
+        self._invalidate_packed_refs()
         if old_ref is not None and self._read_current_ref(name) != old_ref:
             return False
         # may only be packed
